@@ -10,6 +10,8 @@ HARNESSES = [
     dict(name="regions_asan", src="props/regions.cpp", variant="asan"),
     dict(name="matrix", src="props/matrix.cpp", variant="plain"),
     dict(name="filter_asan", src="props/filter.cpp", variant="asan"),
+    dict(name="formats", src="props/formats.cpp", variant="plain"),
+    dict(name="formats_asan", src="props/formats.cpp", variant="asan"),
 ]
 
 CHECKS = {}
@@ -94,4 +96,27 @@ CHECKS["C18"] = dict(
     jobs=[dict(harness="filter_asan", prop="filter", cases=T(4000, 60000), procs=T(8, 16))],
     floor=T(20000, 500000), nt_floor=T(5000, 100000),
     assumptions=["the constant-image consequence is asserted only for kernels of <= 200 taps: the fetchers round every x*y coefficient product, so for huge kernels a drift is arithmetic of the fetcher, not of the table"],
+)
+
+CHECKS["C10"] = dict(
+    level="exploration",
+    rule=("(exh) per format (all 47 of pixman.h, chosen by rapidcheck together with accessor flags and destination offset): every "
+          "pixel value for <= 16 bpp (2^bpp values), per-channel ramps/walking bits + 20000 random values for 24/32 bpp: OP_SRC into "
+          "a8r8g8b8 must equal the reference decode (bit replication, absent alpha = 1, absent colour = 0, palette lookup for "
+          "indexed), back into the format must equal truncation and be the identity on the defined bits; wide formats (10 bpc, "
+          "sRGB) via rgba_float within 2^-20 (sRGB 2e-5) and identity on the way back. (codec) random images of every format "
+          "(width 1-110, sub-rectangle at any bit offset, padded/negative strides, fenced buffers): scanline vs single-pixel "
+          "reader agreement (identity vs +0.25px NEAREST), store locality on every bit outside the addressed pixels incl. sub-byte "
+          "neighbours and row padding, accessor image == direct image on defined bits with every callback address inside the "
+          "storage. Non-trivial = unaligned start/end, indexed/YUV source, or accessor callbacks observed."),
+    jobs=[
+        dict(harness="formats", prop="exh", cases=T(150, 1500), procs=T(4, 8)),
+        dict(harness="formats", prop="codec", cases=T(12000, 250000), procs=T(6, 12)),
+        dict(harness="formats_asan", prop="codec", cases=T(3000, 60000), procs=T(2, 4)),
+    ],
+    floor=T(40000, 800000), nt_floor=T(10000, 100000),
+    assumptions=["reference codec in harness/img.hpp written from the PIXMAN_FORMAT bit fields",
+                 "YUV formats have no exact rule in the statement: only reader agreement / accessor equivalence are asserted for them",
+                 "float and YUV formats address memory directly even with accessors installed; this is observed and labelled, not asserted against (the statement speaks about identical behaviour)",
+                 "little-endian host"],
 )
